@@ -90,7 +90,7 @@ def c03(ctx):
     q = ctx.quick
     mc_algebra(ctx, "codec", 2 if q else 3, "C03_mc")
     bh = gen_algebra(ctx, "codec", 3, "C03_gen_bfs")
-    ctx.run_vh("alg", ["-in", bh, "-codecall", "-bindings", 3 if q else 9, "-max", 2500 if q else 0, "-maxslow", 300 if q else 8000])
+    ctx.run_vh("alg", ["-in", bh, "-codecall", "-adapters", "-bindings", 3 if q else 9, "-max", 2500 if q else 0, "-maxslow", 300 if q else 8000])
     return ctx.finish("model_checking",
                       "behaviour = pool value, one arithmetic step leaving a (possibly non-normalised) result, then encode/decode of any register into any register through MarshalBinary / MarshalTo+UnmarshalFrom / hex helpers; checks: advertised length, identical bytes on all three paths, decode succeeds, re-encoding byte-identical to the canonical-route value, encoded register unchanged, Equal iff identical encodings",
                       ASSUME_LIFT, exhaustive=False)
